@@ -110,7 +110,7 @@ def run(tier):
     CC.run_cases(v, cases, execute, key_of,
                  nontrivial=lambda c: bool(c["args"]["routes"]) or bool(c["args"]["hosting"]) or c["args"]["defhost"] != 0)
     v.cov["exhaustive"] = True
-    v.cov["rule"] = ("every argument combination over default route {1,4} x partial route tables x default hosting cost {0,7} x partial "
+    v.cov["rule"] = ("every argument combination over default route {0,1,4} x partial route tables x default hosting cost {0,7} x partial "
                      "hosting tables x 4 extra-attribute sets, for 2 names (single) and 9 index specifications (list, range with and "
                      "without padding, tuple of lists with default/custom separator); each observed through route() for every name of "
                      "the universe and the agent itself, hosting_cost() for 3 computations, the default accessors, getattr and extra_attr(); "
